@@ -27,6 +27,7 @@ def run(tier: str) -> int:
             {"Family": "stack1", "MaxLen": 3, "Starts": "zero", "Sample": 0, "workers": 4, "style": "both"},
             {"Family": "stack", "MaxLen": 4, "Starts": "zero", "Sample": 1000, "workers": 4},
             {"Family": "stackdeep", "MaxLen": 3, "Starts": "zero", "Sample": 2500, "workers": 4},
+            {"Family": "stackclear", "MaxLen": 3, "Starts": "zero", "Sample": 0, "workers": 3},
             {"Family": "trivfx", "MaxLen": 4, "Starts": "zero", "Sample": 300, "workers": 3},  # implicit rules that push / pop
             {"Family": "stacke", "MaxLen": 3, "Starts": "zero", "Sample": 0, "workers": 3, "style": "both"},  # empty strings on the stack
             {"Family": "ci", "MaxLen": 3, "Starts": "zero", "Sample": 350, "workers": 3, "style": "min"},  # PUSH of an insensitive literal pushes what was matched
@@ -35,7 +36,8 @@ def run(tier: str) -> int:
         fams = [
             {"Family": "stack1", "MaxLen": 5, "Starts": "zero", "Sample": 0, "workers": 8, "style": "both"},
             {"Family": "stack", "MaxLen": 5, "Starts": "zero", "Sample": 0, "workers": 12},
-            {"Family": "stackdeep", "MaxLen": 4, "Starts": "zero", "Sample": 0, "workers": 12},
+            {"Family": "stackdeep", "MaxLen": 4, "Starts": "zero", "Sample": 30000, "workers": 12},
+            {"Family": "stackclear", "MaxLen": 4, "Starts": "zero", "Sample": 0, "workers": 8},
             {"Family": "trivfx", "MaxLen": 4, "Starts": "zero", "Sample": 0, "workers": 8},
             {"Family": "stacke", "MaxLen": 4, "Starts": "zero", "Sample": 0, "workers": 8, "style": "both"},
             {"Family": "ci", "MaxLen": 3, "Starts": "zero", "Sample": 0, "workers": 8, "style": "min"},
